@@ -42,6 +42,9 @@ def check(run: Run) -> None:
             raise AnalysisError("anchor vanished: _extract_metadata.visit_Call / call_MetaData(self, node, args)")
         handler_form = True
         bind = {("param", vc.pos_params[2]): ("attr", ("param", vc.pos_params[1]), "args")}
+    from ..lib import view as _view_e
+
+    vc = _view_e(m, vc)  # recording and stripping may sit in a private method visit_Call returns through
     fa = ctx.analysis(vc)
     nodep = ("param", vc.pos_params[1])
     selfp = ("param", vc.pos_params[0])
@@ -97,10 +100,10 @@ def check(run: Run) -> None:
     ectx = TermCtx(m, max_depth=3)
     for ent in dispatch_entries(m, ex_cls):
         for s_, leaked, whole in unvisited_in_entry(ectx, ent):
-            if ent is vc and (subst(leaked, bind) if bind else leaked) == ("index", ("attr", nodep, "args"), 1):
+            if (ent is vc or ent is vc.__dict__.get("_unrolled_from")) and (subst(leaked, bind) if bind else leaked) == ("index", ("attr", nodep, "args"), 1):
                 continue  # the wrapper's dictionary literal is consumed, not embedded
             run.fail("C15.R2", ent, s_, f"{ent.name} puts {show(leaked)} into its result without visiting it: MetaData wrappers inside it (arguments, keyword values, lambda bodies) are collected or removed only in part", "self.generic_visit(node)", show(whole)[:200])
-    for base_m in [f for f in m.all_methods(ex_cls).values() if f.name == "visit_Call" and f is not vc]:
+    for base_m in [f for f in m.all_methods(ex_cls).values() if f.name == "visit_Call" and f is not vc and f is not vc.__dict__.get("_unrolled_from")]:
         fb = ectx.analysis(base_m)
         gvs = [c for c in calls_in(base_m) if isinstance(c.func, ast.Attribute) and c.func.attr == "generic_visit"]
         rets_ok = all(all(a[0] in ("gvisit", "app") for a in unphi_terms(strip_sites(fb.term_of(s_.value, n_)))) for s_, n_ in fb.returns())
